@@ -15,13 +15,15 @@ RULE = (
     "blocks, an attached proxy, a detached code block, a proxy of another IR) and 6 labels (None, all-false, "
     "labels differing in one component, an int-valued label equal by value to a bool-valued one): add, "
     "discard, remove, pop, clear, update, |=, &=, -=, ^= (with set, frozenset, another CFG, itself), "
-    "construction from an iterable; non-trivial = two parallel edges (same endpoints, different labels) "
+    "construction from an iterable, update with an iterable that raises part-way, and reload (IR A saved, "
+    "optionally every edge record written twice, loaded; the history continues on the loaded CFG); non-trivial = two parallel edges (same endpoints, different labels) "
     "coexisted and one of them was removed while the other stayed; distinct = SHA-1 of canonical JSON"
 )
 ASSUMPTIONS = [
     "operands of the in-place operators are sets (set, frozenset, CFG), as for built-in sets; update takes any iterable",
 ]
-REQUIRED_TAGS = {"quick": ["parallel-removed", "op:ixor", "op:pop"], "thorough": ["parallel-removed", "op:ixor", "op:pop"]}
+REQUIRED_TAGS = {"quick": ["parallel-removed", "op:ixor", "op:pop", "reload:edge-records-repeated", "failed-op:update"],
+                 "thorough": ["parallel-removed", "op:ixor", "op:pop", "reload:edge-records-repeated", "failed-op:update"]}
 
 N_NODES = 5
 N_LABELS = 6
